@@ -50,6 +50,9 @@ class ListTransformer(converter.Base):
 
   def visit_List(self, node):
     node = self.generic_visit(node)
+    if not isinstance(node.ctx, ast.Load):
+      # A list display used as an assignment target is not a value.
+      return node
     template = """
       ag__.new_list(elements)
     """
